@@ -249,6 +249,23 @@ partial def toStmt : Sx → Option Stmt
   | .list [.atom "setf", o, .atom n, e] => do pure (.setf (← toExpr o) n (← toExpr e))
   | .list [.atom "try", .list body, .list handler] => do
     pure (.tryS (← body.mapM toStmt) (← handler.mapM toStmt))
+  | .list [.atom "class", .atom name, .atom parent, initSx, .list (.atom "methods" :: ms), .list (.atom "statics" :: ss)] => do
+    let init ← match initSx with
+      | .list [.atom "noinit"] => pure none
+      | .list (.atom "init" :: .list ps :: body) => do
+        let ps ← ps.mapM fun | .atom p => some p | _ => none
+        let body ← body.mapM toStmt
+        pure (some (ps, body))
+      | _ => none
+    let ms ← ms.mapM toTriple
+    let ss ← ss.mapM toTriple
+    pure (.classS name (if parent == "-" then none else some parent) init ms ss)
+  | _ => none
+partial def toTriple : Sx → Option (String × List String × List Stmt)
+  | .list (.atom _ :: .atom name :: .list ps :: body) => do
+    let ps ← ps.mapM fun | .atom p => some p | _ => none
+    let body ← body.mapM toStmt
+    pure (name, ps, body)
   | _ => none
 end
 
@@ -262,19 +279,11 @@ def toFun : Sx → Option FunSrc
 
 open LaytheVerif.ClassLang in
 def toItem : Sx → Option Item
-  | .list [.atom "class", .atom name, .atom parent, initSx, .list (.atom "methods" :: ms), .list (.atom "statics" :: ss)] => do
-    let init ← match initSx with
-      | .list [.atom "noinit"] => pure none
-      | .list (.atom "init" :: .list ps :: body) => do
-        let ps ← ps.mapM fun | .atom p => some p | _ => none
-        let body ← body.mapM toStmt
-        pure (some { name := "init", params := ps, body := body : FunSrc })
-      | _ => none
-    let ms ← ms.mapM toFun
-    let ss ← ss.mapM toFun
-    pure (.cls { name := name, parent := if parent == "-" then none else some parent, init := init, methods := ms, statics := ss })
   | sx@(.list (.atom "fn" :: _)) => (toFun sx).map Item.fn
-  | sx => (toStmt sx).map Item.stmt
+  | sx => do
+    match ← toStmt sx with
+    | .classS name parent init ms ss => pure (.cls (ClassDecl.ofParts name parent init ms ss))
+    | st => pure (.stmt st)
 
 def escape (s : String) : String :=
   s.foldl (fun acc c => if c == '\\' then acc ++ "\\\\" else if c == '\n' then acc ++ "\\n" else acc.push c) ""
